@@ -274,7 +274,7 @@ def fewMixedLevels (d : List (Test α)) : Bool :=
   d.all fun t => d.all fun u => !(isMixedLoad d t.load && isMixedLoad d u.load) || eqα t.load u.load
 
 /-- the scale of one optimisation variable of `MaxLikeFull`: its start value, or 1 when the start value is 0 (the optimiser
-must be able to leave a zero start: fix C18-maxlike-relative-followup) -/
+must be able to leave a zero start: /repo commit d747c6e) -/
 def relScale (s : α) : α := if eqα s 0.0 then 1.0 else s
 
 /-- the start vector of `MaxLikeFull`'s search in scaled variables: `start / scale` = 1, or 0 for a zero start value -/
